@@ -33,6 +33,17 @@ Proof.
 move=> hv hs; rewrite mulmxBr !mulmxA -[V^T *m A *m V]mulmxA hs.
 by rewrite -[V^T *m V *m S *m Th]mulmxA [V^T *m V *m _]mulmxA -mulmxA hv mul1mx subrr.
 Qed.
+
+(* LOBPCG Rayleigh-Ritz on the trial space S = [X R D]: coefficients C that are gramB-orthonormal give B-orthonormal X' = S C,
+   the cached products stay consistent, and if C solves the projected pencil the new residual is orthogonal to the trial space *)
+Lemma rr_B_orthonormal (B : 'M[R]_n) (S : 'M[R]_(n, m)) (C : 'M[R]_(m, k)) :
+  C^T *m (S^T *m B *m S) *m C = 1%:M -> (S *m C)^T *m B *m (S *m C) = 1%:M.
+Proof. by move=> h; rewrite trmx_mul -!mulmxA in h *; rewrite -h !mulmxA. Qed.
+
+Lemma rr_galerkin (A B : 'M[R]_n) (S : 'M[R]_(n, m)) (C : 'M[R]_(m, k)) (L : 'M[R]_k) :
+  (S^T *m A *m S) *m C = (S^T *m B *m S) *m C *m L ->
+  S^T *m (A *m (S *m C) - B *m (S *m C) *m L) = 0.
+Proof. by move=> h; rewrite mulmxBr !mulmxA h subrr. Qed.
 End Dav.
 
 (* partial SVD through the Gram operator: A^T A v = s^2 v, u = A v / s  ==>  A v = s u,  A^T u = s v,  |u|^2 = |v|^2 *)
